@@ -430,6 +430,12 @@ func (p *Parser) parsePathExpr() *ast.PathExpr {
 		}
 	}
 
+	if len(values) == 0 {
+		// empty path, e.g. `get (Req)`: report a syntax error instead of indexing values[0]
+		p.expectPeekToken(token.QUO)
+		return nil
+	}
+
 	var textList []string
 	for _, v := range values {
 		textList = append(textList, v.Text)
